@@ -139,7 +139,7 @@ def generate(seed, run, tier):
          "seek": rs.choice([1, 3, 6]), "tell": rs.choice([0, 1, 2])}
     kinds = [k for k, v in w.items() for _ in range(v)] or ["read_n"]
     steps = []
-    nsteps = rs.choice([5, 15, 30, 60])
+    nsteps = rs.choice([5, 15, 30, 60] if tier == "quick" else [5, 15, 30, 60, 120])
     sticky = rs.random()
     cur = (0, 0, "members")
     for _ in range(nsteps if nm else 0):
